@@ -92,10 +92,21 @@ static int damage(int kind, unsigned char *m, size_t flen, cfg_t c, int n, const
     case 63: *name = "twin+libver=1.2.0-unsealed"; wr32(m + 63, 0x010200); make_twin(m); m[14] ^= 1; return 1;
     case 64: *name = "libver=1.5.5";       wr32(m + 63, 0x010505); reseal(m); return 1;       /* older release, larger low digits */
     case 65: *name = "libver=0.9.9";       wr32(m + 63, 0x000909); return 1;
+    /* writer release x flavour of the stored payload checksum x payload damage */
+    case 66: *name = "libver=1.6.2+stored=alt"; if (c.ct != 2) return 0; wr32(m + 63, 0x010602); wr32(m + 21, (uint32_t)liberasurecode_crc32_alt(0, m + HDR, bs)); reseal(m); return 1;
+    case 67: *name = "libver=1.6.3+stored=alt"; if (c.ct != 2) return 0; wr32(m + 63, 0x010603); wr32(m + 21, (uint32_t)liberasurecode_crc32_alt(0, m + HDR, bs)); seal_alt(m); return 1;
+    case 68: *name = "libver=1.2.0+stored=alt"; if (c.ct != 2) return 0; wr32(m + 63, 0x010200); wr32(m + 21, (uint32_t)liberasurecode_crc32_alt(0, m + HDR, bs)); reseal(m); return 1;
+    case 69: *name = "libver=1.5.0+stored=alt"; if (c.ct != 2) return 0; wr32(m + 63, 0x010500); wr32(m + 21, (uint32_t)liberasurecode_crc32_alt(0, m + HDR, bs)); reseal(m); return 1;
+    case 70: *name = "libver=1.6.2";            wr32(m + 63, 0x010602); reseal(m); return 1;
+    case 71: *name = "libver=1.0.5+payload-bit"; if (bs == 0) return 0; wr32(m + 63, 0x010005); wr32(m + 67, 0); m[HDR + bs / 3] ^= 0x08; return 1;
+    case 72: *name = "libver=1.1.0+payload-bit"; if (bs == 0) return 0; wr32(m + 63, 0x010100); m[HDR + bs - 1] ^= 0x01; return 1;
+    case 73: *name = "twin+libver=1.0.5+payload"; if (bs == 0) return 0; wr32(m + 63, 0x010005); make_twin(m); wr32(m + 67, 0); m[HDR] ^= 0x10; return 1;
+    case 74: *name = "libver=1.6.2+stored=alt+payload-bit"; if (c.ct != 2 || bs == 0) return 0; wr32(m + 63, 0x010602); wr32(m + 21, (uint32_t)liberasurecode_crc32_alt(0, m + HDR, bs)); reseal(m); m[HDR + bs / 2] ^= 0x02; return 1;
+    case 75: *name = "libver=own+stored=alt"; if (c.ct != 2) return 0; wr32(m + 21, (uint32_t)liberasurecode_crc32_alt(0, m + HDR, bs)); reseal(m); return 1;
     default: return 0;
     }
 }
-#define N_DAMAGE 66
+#define N_DAMAGE 76
 
 static void cat_stripe(cfg_t c, size_t len, int legacy, int tier, int reader_env) {
     stripe_t s;
@@ -130,6 +141,17 @@ static void cat_stripe(cfg_t c, size_t len, int legacy, int tier, int reader_env
         else { memmove(fr + 1, fr, sizeof(char *) * cnt); fr[0] = (char *)mut; cnt++; fr[cnt++] = (char *)mut; }
         op_dec_g(c, (kind >> 1) & 1, s.flen, cnt, fr);
         if (tier || kind % 2) op_dec_g(c, !((kind >> 1) & 1), s.flen, cnt, fr);
+        /* the damaged fragment given IN ADDITION to the pristine one of the same index, before and after it */
+        for (int i = 0; i < n; i++) fr[i + 1] = s.all[i];
+        fr[0] = (char *)mut;
+        op_dec_g(c, 1, s.flen, n + 1, fr);
+        if (tier || kind % 2 == 0) op_dec_g(c, 0, s.flen, n + 1, fr);
+        for (int i = 0; i < n; i++) fr[i] = s.all[i];
+        fr[n] = (char *)mut;
+        if (other != fi) { fr[other] = fr[n - 1]; fr[n - 1] = (char *)mut; op_dec_g(c, 1, s.flen, n, fr); }    /* ... with another fragment withheld */
+        else op_dec_g(c, 1, s.flen, n + 1, fr);
+        cnt = 0; for (int i = 0; i < n; i++) if (i != other && i != fi) fr[cnt++] = s.all[i];
+        fr[cnt++] = (char *)mut;
         /* reconstruct: the damaged fragment among the sources (destination: the withheld one); the damaged
            fragment present while it is itself the destination */
         op_rec_g(c, reader_env, other, s.flen, cnt, fr);      /* reconstruct also writes: the switch is its input */
@@ -177,7 +199,10 @@ static void grid_cell(cfg_t c, size_t len, int kind) {
     switch (kind) { case 0: for (size_t i = 0; i < len; i++) s.data[i] = (unsigned char)rnd64(); break;
                     case 1: memset(s.data, 0xff, len); break;
                     case 2: for (size_t i = 0; i < len; i++) s.data[i] = (unsigned char)(i * 131 + (i >> 8)); break;
-                    default: memset(s.data, 'x', len); break; }
+                    case 3: memset(s.data, 'x', len); break;
+                    /* whole leading / trailing data fragments zero while the others are not */
+                    case 4: for (size_t i = 0; i < len; i++) s.data[i] = (unsigned char)rnd64(); memset(s.data, 0, (len + c.k - 1) / c.k * (1 + (len > 64 && c.k > 2))); break;
+                    default: for (size_t i = 0; i < len; i++) s.data[i] = (unsigned char)rnd64(); { size_t z = (len + c.k - 1) / c.k; memset(s.data + len - z, 0, z); } break; }
     int rc = liberasurecode_encode(s.desc, (char *)s.data, len, &s.ed, &s.ep, &s.flen);
     if (rc != 0) { grid_fail("C01,C13", "grid: encode of %zu bytes failed (%d): be=%d (%d,%d,%d)", len, rc, c.be, c.k, c.m, c.hd); free(s.data); return; }
     s.n = c.k + c.m; s.all = malloc(sizeof(char *) * s.n);
@@ -254,7 +279,7 @@ void suite_grid(int tier) {
         int nl = (int)(sizeof lens / sizeof lens[0]);
         for (int li = 0; li < nl; li++) {
             if (!tier && c.k > 16 && lens[li] > 300000) continue;
-            grid_cell(c, lens[li], (si + li) % 4);
+            grid_cell(c, lens[li], (si + li) % 6);
         }
         /* exactly 2^20 (and 2^20 +- 1) bytes of payload per fragment for the narrow shapes */
         if (c.k <= 3 || tier) { grid_cell(c, ((size_t)1 << 20) * k, 0); if (c.k <= 2) { grid_cell(c, ((size_t)1 << 20) * k + 1, 2); grid_cell(c, ((size_t)1 << 20) * k - 1, 1); } }
@@ -265,7 +290,7 @@ void suite_grid(int tier) {
         for (unsigned si = 0; si < sizeof is / sizeof is[0]; si++) {
             cfg_t c = is[si]; size_t k = (size_t)c.k;
             size_t lens[] = { 0, 1, k, k + 1, k - (k > 1), 3 * k, 4096, 4095, 65536 * k, 65536 * k + 1, 1000 * k + 3 };
-            for (unsigned li = 0; li < sizeof lens / sizeof lens[0]; li++) grid_cell(c, lens[li], (int)((si + li) % 4));
+            for (unsigned li = 0; li < sizeof lens / sizeof lens[0]; li++) grid_cell(c, lens[li], (int)((si + li) % 6));
             if (c.k <= 2) grid_cell(c, ((size_t)1 << 20) * k, 0);
             stat_add("grid.shapes", 1);
         }
